@@ -154,9 +154,18 @@ func (s *State) notify(e CacheEvent, lag int) {
 	}
 }
 
+// ObjKey is the map key of an object: its name, prefixed by the namespace when it is not the default one.
+func ObjKey(ns, name string) string {
+	if ns == "" || ns == NS {
+		return name
+	}
+	return ns + "/" + name
+}
+
 func (s *State) PutPod(p *v1.Pod, lag int) {
-	s.API.Pods[p.Name] = p
-	s.notify(CacheEvent{Kind: "pods", Name: p.Name, Pod: p}, lag)
+	k := ObjKey(p.Namespace, p.Name)
+	s.API.Pods[k] = p
+	s.notify(CacheEvent{Kind: "pods", Name: k, Pod: p}, lag)
 }
 func (s *State) DelPod(name string, lag int) {
 	delete(s.API.Pods, name)
@@ -171,10 +180,11 @@ func (s *State) DelSet(name string, lag int) {
 	s.notify(CacheEvent{Kind: "sets", Name: name}, lag)
 }
 func (s *State) PutPVC(p *v1.PersistentVolumeClaim, lag int) {
-	s.API.PVCs[p.Name] = p
-	s.notify(CacheEvent{Kind: "pvcs", Name: p.Name, PVC: p}, lag)
+	k := ObjKey(p.Namespace, p.Name)
+	s.API.PVCs[k] = p
+	s.notify(CacheEvent{Kind: "pvcs", Name: k, PVC: p}, lag)
 }
-func (s *State) PutRev(r *appsv1.ControllerRevision) { s.API.Revs[r.Name] = r }
+func (s *State) PutRev(r *appsv1.ControllerRevision) { s.API.Revs[ObjKey(r.Namespace, r.Name)] = r }
 func (s *State) DelRev(name string)                  { delete(s.API.Revs, name) }
 
 // ---- canonical key ----
@@ -232,7 +242,7 @@ func podDesc(p *v1.Pod) string {
 		img = p.Spec.Containers[0].Image
 	}
 	return fmt.Sprintf("pod %s L[%s] O[%s] term=%v ph=%s rdy=%v vols=%v img=%s host=%s sub=%s",
-		p.Name, mapDesc(p.Labels), ownerDesc(p.OwnerReferences), p.DeletionTimestamp != nil,
+		ObjKey(p.Namespace, p.Name), mapDesc(p.Labels), ownerDesc(p.OwnerReferences), p.DeletionTimestamp != nil,
 		p.Status.Phase, podReady(p), vols, img, p.Spec.Hostname, p.Spec.Subdomain)
 }
 
@@ -435,7 +445,7 @@ func (s *State) UnmarshalJSON(b []byte) error {
 		s.API.Sets[o.Name] = o
 	}
 	for _, o := range j.APIPods {
-		s.API.Pods[o.Name] = o
+		s.API.Pods[ObjKey(o.Namespace, o.Name)] = o
 	}
 	for _, o := range j.APIPVCs {
 		s.API.PVCs[o.Name] = o
@@ -454,7 +464,7 @@ func (s *State) UnmarshalJSON(b []byte) error {
 		s.Cache.Sets[o.Name] = o
 	}
 	for _, o := range j.CachePods {
-		s.Cache.Pods[o.Name] = o
+		s.Cache.Pods[ObjKey(o.Namespace, o.Name)] = o
 	}
 	for _, o := range j.CachePVCs {
 		s.Cache.PVCs[o.Name] = o
